@@ -39,6 +39,7 @@ import itertools
 import os
 import shutil
 import string
+import sys
 import types
 
 from vt.core import Part, pmap, rotate, ROOT, HarnessBroken
@@ -611,6 +612,7 @@ E2E_LA = {'la_foo': ('foo', "dlname='libfoo.so.0'", 'libfoo.so.0'),
           'la_pango': ('pango-1.0', "dlname='libpango-1.0.so.0'", 'libpango-1.0.so.0'),
           'la_static': ('foo_x', "dlname=''", None)}
 E2E_LA_SETS = [[], ['la_foo'], ['la_foo', 'la_pango'], ['la_static'], ['la_foo', 'la_static']]
+E2E_STDERR_NAMES = ['foo-bar', 'pango', 'foobar', 'pangoft2', 'pango-1.0', 'foo']
 E2E_NAME_SETS = [[], ['foo-bar'], ['pango'], ['foo-bar', 'pango'], ['foobar'], ['pango', 'pangoft2']]
 
 
@@ -625,7 +627,7 @@ def e2e_lines(spec):
     return out
 
 
-def run_e2e(lines, la_tags, names, la_first):
+def run_e2e(lines, la_tags, names, la_first, stderr_noise=False):
     d = scratch_dir()
     lpath = os.path.join(d, 'listing.txt')
     with open(lpath, 'w') as f:
@@ -638,14 +640,36 @@ def run_e2e(lines, la_tags, names, la_first):
             f.write(la_content(('dlname', 'library_names', 'old_library', 'libdir'), True, dl, n, 'lib%s.so.0' % n))
         las.append(p)
     libs = las + list(names) if la_first else list(names) + las
-    options = types.SimpleNamespace(ldd_wrapper=['/bin/cat'], nolibtool=True, libtool_path=None)
+    wrapper = ['/bin/cat']
+    if stderr_noise:
+        # a wrapper that, like ldd, prints diagnostics on STDERR before the listing on stdout;
+        # the diagnostics mention look-alike paths for every name of the alphabet
+        wpath = os.path.join(d, 'lddwrap.sh')
+        with open(wpath, 'w') as f:
+            f.write('#!/bin/sh\n')
+            for n in E2E_STDERR_NAMES:
+                f.write("echo \"ldd: warning: you do not have execution permission for \\`/build/.libs/lib%s.so'\" >&2\n" % n)
+                f.write("echo '/build/.libs/lib%s.so.77' >&2\n" % n)
+            f.write('exec /bin/cat \"$1\"\n')
+        os.chmod(wpath, 0o755)
+        wrapper = ['/bin/sh', wpath]
+    options = types.SimpleNamespace(ldd_wrapper=wrapper, nolibtool=True, libtool_path=None)
     binary = types.SimpleNamespace(args=[lpath])
+    # the unchanged code lets the wrapper's stderr through to ours: keep it off the check's output
+    sys.stderr.flush()
+    saved = os.dup(2)
+    devnull = os.open(os.devnull, os.O_WRONLY)
+    os.dup2(devnull, 2)
     try:
         r = impl_shlibs.resolve_shlibs(options, binary, libs)
     except SystemExit as e:
         return ('exit', e.code)
     except Exception as e:  # noqa
         return ('crash', '%s: %s' % (type(e).__name__, e))
+    finally:
+        os.dup2(saved, 2)
+        os.close(saved)
+        os.close(devnull)
     return ('ok', list(r))
 
 
@@ -668,14 +692,15 @@ def e2e_expect(lines, la_tags, names):
 def _work_e2e(chunk):
     part = Part()
     try:
-        for li, la_tags, names, la_first in chunk:
+        for li, la_tags, names, la_first, noise in chunk:
             lines = e2e_lines(E2E_LISTINGS[li])
             verdict, static = e2e_expect(lines, la_tags, names)
-            obs = run_e2e(lines, la_tags, names, la_first)
+            obs = run_e2e(lines, la_tags, names, la_first, noise)
             part.add(evaluations=1, states=1, transitions=1)
             case = {'kind': 'e2e', 'listing': li, 'la': la_tags, 'names': names, 'la_first': la_first,
+                    'stderr_noise': noise,
                     'expected': _jsonable(verdict), 'observed': _jsonable(obs)}
-            key = 'e2e|%d|%r|%r|%r' % (li, la_tags, names, la_first)
+            key = 'e2e|%d|%r|%r|%r|stderr=%r' % (li, la_tags, names, la_first, noise)
             if verdict[0] == 'unspecified' or (static and verdict[0] == 'ok'):
                 # a libtool archive without a dlname: whether the scan must stop is not fixed
                 # by the statement's quantifier (loader listings); record what happens
@@ -691,11 +716,71 @@ def _work_e2e(chunk):
             if err:
                 part.violation(key, err, case)
         if chunk:
-            li, la_tags, names, la_first = chunk[-1]
+            li, la_tags, names, la_first, noise = chunk[-1]
             part.sample({'resolve_shlibs': {'ldd_wrapper_output': listing_text(e2e_lines(E2E_LISTINGS[li])),
                                             'libraries': (la_tags + names) if la_first else (names + la_tags)}})
     finally:
         shutil.rmtree(scratch_dir(), ignore_errors=True)
+    return part.result()
+
+
+# ------------------------------------------------------------ line terminators ---
+# Listings with a header line naming the inspected binary (its base name looks like
+# lib<name>), file lines in every style, and LF / CRLF / CR line ends, with and without
+# a terminator after the last line.  Header lines are never listed files (statement).
+T_NAMES = ['foo', 'foo-bar', 'pango']
+T_TERMS = [('LF', '\n'), ('CRLF', '\r\n'), ('CR', '\r')]
+T_HEADERS = ['/tmp/tmp-introspect8x/lib%s.so.999:' % n for n in T_NAMES] + ['Foo-1.0:']
+
+
+def t_file_lines():
+    out = []
+    for n in T_NAMES:
+        for st in STYLES:
+            text, files = render(st, '/usr/lib/', 'lib%s.so.4' % n)
+            out.append(Line(text, files, 'file'))
+    return out
+
+
+def t_text(lines, term, final):
+    return term.join(l.text for l in lines) + (term if final and lines else '')
+
+
+def _work_term(chunk):
+    part = Part()
+    flines = t_file_lines()
+    reqs = req_lists(T_NAMES, 2)
+    for h in chunk:
+        hl = Line(h, (h[:-1],), 'header')
+        seqs = [[hl]]
+        seqs += [[hl, a] for a in flines] + [[a, hl] for a in flines]
+        seqs += [[hl, a, b] for a in flines for b in flines] + [[a, hl, b] for a in flines for b in flines]
+        for lines in seqs:
+            first = {}
+            pairs = set()
+            for l in lines:
+                for n, b in l.first.items():
+                    first.setdefault(n, b)
+                pairs |= l.pairs
+            for tname, term in T_TERMS:
+                for final in (True, False):
+                    text = t_text(lines, term, final)
+                    part.add(states=1, transitions=1)
+                    for req in reqs:
+                        verdict = ref_verdict(first, pairs, req)
+                        obs = run_impl(req, text)
+                        part.add(evaluations=1, transitions=1)
+                        if verdict[0] == 'unspecified':
+                            part.add(unspecified=1)
+                            continue
+                        part.add(traces_validated_against_impl=1, distinct_nontrivial=1, term_must=1)
+                        part.outcome(('term', tname, verdict[0], obs[0]))
+                        err = judge(verdict, obs)
+                        if err:
+                            c = case_obj(lines, req, verdict, obs)
+                            c.update(kind='term', terminator=term, final=final)
+                            part.violation('term|%r|%r' % (req, text), err, c)
+        part.sample({'listing': t_text(seqs[-1], '\r\n', True), 'requests': list(reqs[-1])})
     return part.result()
 
 
@@ -859,10 +944,12 @@ def run(ctx):
     la_chunks = [vals[i:i + 4] for i in range(0, len(vals), 4)]
     for r in pmap(_work_la, rotate(la_chunks, ctx.seed)):
         ctx.merge(r)
-    e2e = [(li, la, nm, lf) for li in range(len(E2E_LISTINGS)) for la in E2E_LA_SETS for nm in E2E_NAME_SETS
-           for lf in ((True, False) if la and nm else (True,))]
+    e2e = [(li, la, nm, lf, noise) for li in range(len(E2E_LISTINGS)) for la in E2E_LA_SETS for nm in E2E_NAME_SETS
+           for lf in ((True, False) if la and nm else (True,)) for noise in (False, True)]
     e2e_chunks = [e2e[i:i + 12] for i in range(0, len(e2e), 12)]
     for r in pmap(_work_e2e, rotate(e2e_chunks, ctx.seed)):
+        ctx.merge(r)
+    for r in pmap(_work_term, rotate([[h] for h in T_HEADERS], ctx.seed)):
         ctx.merge(r)
     fsc = fs_cases()
     fs_chunks = [fsc[i:i + 12] for i in range(0, len(fsc), 12)]
@@ -884,7 +971,7 @@ def run(ctx):
                     'multi_file_line_bases': M_BASES, 'multi_file_line_decorations': M_DECOS,
                     'names': NAMES, 'tails': TAILS, 'styles': STYLES, 'dirkinds': DIRKINDS,
                     'la_values': len(vals), 'la_layouts': 48, 'la_unspecified_variants': len(LA_VARIANTS) + 2,
-                    'e2e_cases': len(e2e), 'fs_names': FS_NAMES, 'fs_states': FS_STATES,
+                    'e2e_cases': len(e2e), 'line_terminators': [t for t, _ in T_TERMS], 'terminator_headers': T_HEADERS, 'fs_names': FS_NAMES, 'fs_states': FS_STATES,
                     'fs_request_x_cwd_states': len(fsc)})
     ctx.assumptions += [
         'which whitespace-separated tokens of a listing are listed files is known from the generator (ldd: soname and '
@@ -899,7 +986,7 @@ def run(ctx):
     ]
     cov = ctx.cov
     if (len(ctx._outcomes) < 8 or not cov.get('expected_resolved') or not cov.get('expected_error')
-            or not cov.get('la_must') or not cov.get('e2e_must') or not cov.get('fs_must')
+            or not cov.get('la_must') or not cov.get('e2e_must') or not cov.get('fs_must') or not cov.get('term_must')
             or not cov.get('fs_with_file_request')):
         raise HarnessBroken('vacuous exploration: outcomes=%d resolved=%s error=%s' % (
             len(ctx._outcomes), cov.get('expected_resolved'), cov.get('expected_error')))
@@ -938,12 +1025,32 @@ def replay(ctx, case):
         elif kind == 'e2e':
             lines = e2e_lines(E2E_LISTINGS[case['listing']])
             verdict, static = e2e_expect(lines, case['la'], case['names'])
-            obs = run_e2e(lines, case['la'], case['names'], case['la_first'])
+            obs = run_e2e(lines, case['la'], case['names'], case['la_first'], case.get('stderr_noise', False))
+            print('wrapper prints look-alike paths on stderr: %r' % case.get('stderr_noise', False))
             print('listing:\n%s' % listing_text(lines))
             print('libraries: la=%r names=%r' % (case['la'], case['names']))
             print('expected: %r' % (_jsonable(verdict),))
             print('observed: %r' % (_jsonable(obs),))
             if verdict[0] == 'unspecified' or (static and verdict[0] == 'ok'):
+                return obs[0] != 'crash'
+            err = judge(verdict, obs)
+        elif kind == 'term':
+            lines = [Line(t, f, k) for t, f, k in case['lines']]
+            req = tuple(case['requests'])
+            first = {}
+            pairs = set()
+            for l in lines:
+                for n, b in l.first.items():
+                    first.setdefault(n, b)
+                pairs |= l.pairs
+            verdict = ref_verdict(first, pairs, req)
+            text = t_text(lines, case['terminator'], case['final'])
+            obs = run_impl(req, text)
+            print('listing: %r' % text)
+            print('requests: %r' % (list(req),))
+            print('expected: %r' % (_jsonable(verdict),))
+            print('observed: %r' % (_jsonable(obs),))
+            if verdict[0] == 'unspecified':
                 return obs[0] != 'crash'
             err = judge(verdict, obs)
         elif kind == 'fs':
